@@ -99,6 +99,14 @@ def cases(tier, seed):
                 out.append(dict(kind="nonstatio", dim=1, cap_t=cap, nstart_t=ns, sel_t=sel, sample_t=max(sample, 2), b_t=min(b, cap),
                                 cap_x=cap, nstart_x=ns, sel_x=sel, sample_x=max(sample, 2), b_x=min(b, cap), start=start, every=every,
                                 iters=iters, seed=k, land=land, ret=ret))
+    # time and space starting far apart (more initial time points than space points and conversely)
+    for start in (0, 2):
+        for every in (1, 2):
+            for (ct, nt0, st_, cx, nx0, sx) in ((8, 5, 1, 8, 1, 1), (7, 1, 2, 8, 5, 1), (8, 6, 1, 6, 2, 2), (6, 2, 2, 8, 6, 1)):
+                n += 1
+                out.append(dict(kind="nonstatio", dim=1 + n % 2, cap_t=ct, nstart_t=nt0, sel_t=st_, sample_t=max(st_, 2), b_t=2, cap_x=cx,
+                                nstart_x=nx0, sel_x=sx, sample_x=max(sx, 3), b_x=2, start=start, every=every, iters=start + every * 8 + 1,
+                                seed=sd + n, land=lands[n % 3], ret="scalar"))
     # end-to-end through jinns.solve (hooks H1 + H2)
     e2e = [c for k, c in enumerate(out) if k % (9 if q else 3) == 0]
     out += [dict(c, mode="solve") for c in e2e]
